@@ -55,6 +55,8 @@ def pystr_int(ev, t):
         ev.st.assume(inv(r) == t)                       # injective
         ev.st.assume(z3.Length(r) >= 1)
         ev.st.assume(z3.InRe(r, INT_RE))
+        for ch in ("\n", "\r", "\0"):   # direct consequences of the numeral shape (saves the solver a regex argument)
+            ev.st.assume(z3.Not(z3.Contains(r, z3.StringVal(ch))))
         ev.st.assume(z3.Implies(t >= 0, z3.And(z3.Length(r) == declen(t))))
     return r
 
